@@ -1,7 +1,7 @@
 import Rangers.Generated.Bn256Consts
 import Mathlib.Tactic.NormNum.Prime
 import Rangers.Proofs.C13Dkg
-import Rangers.Proofs.C13Select
+import Rangers.Proofs.C13RecoverMap
 /-!
 # C13 — any threshold subset of group members yields the same valid group signature
 
@@ -146,75 +146,140 @@ theorem lagrange_collision_counterexample :
 
 /-! ## `RecoverGroupSignature`: independence of map order and of the random k-subset -/
 
-theorem mapM_honest {α : Type} (g : Nat → α) : ∀ (l : List (Nat × Option α)),
-    (∀ e ∈ l, e.2 = some (g e.1)) → l.mapM (fun e => e.2) = some (l.map (fun e => g e.1))
-  | [], _ => by simp
-  | e :: l, h => by
-    rw [List.mapM_cons, h e (by simp), mapM_honest g l (fun e' he' => h e' (by simp [he']))]
-    simp
-
 /-- **recover_group_signature_any** (`_partial`: ids distinct mod `r`): `RecoverGroupSignature` on a
     witness map holding at least `k` honest shares returns `f(0)•h` whatever the iteration order of
-    the Go maps (`ord1`, `ord2`: arbitrary permutations) and whatever `RandomPerm` draws (`js`:
-    arbitrary in-range values). Hence the group signature does not depend on which members answered,
-    in which order, or on the node's internal randomness. -/
+    the Go maps and whatever `RandomPerm` draws (`Admissible`: orders are arbitrary permutations,
+    draws arbitrary in-range values). Hence the group signature does not depend on which members
+    answered, in which order, or on the node's internal randomness. -/
 theorem recover_group_signature_any_partial [Fact r.Prime] (ops : Ops G) (hops : LawfulOps r ops)
     (cs : List Nat) (hcs : cs ≠ []) (h : G) (k : Nat) (hck : cs.length ≤ k)
     (m : List (Nat × Option G)) (hkm : k ≤ m.length)
     (hd : IdsDistinct r (m.map Prod.fst))
     (hhon : ∀ e ∈ m, e.2 = some (ops.mul h ((shareSeckey r cs e.1).getD 0)))
-    (c : Choice (Nat × Option G)) (h1 : ∀ l, (c.ord1 l).Perm l) (h2 : ∀ l, (c.ord2 l).Perm l)
-    (hjs : k ≤ c.js.length) (hjr : ∀ i, i < k → c.js.getD i 0 + i < m.length) :
+    (c : Choice (Nat × Option G)) (hc : Admissible c m.length k) :
     recoverGroupSignature ops r k m c = .ok (some (ops.mul h (cs.headD 0))) := by
   have hk0 : 0 < k := by
     rcases Nat.eq_zero_or_pos k with h0 | h0
     · subst h0; exact absurd (List.length_eq_zero_iff.1 (Nat.le_zero.1 hck)) hcs
     · exact h0
-  -- the entries actually used: `k` of them, a sub-permutation of the map
-  have key : ∃ it : List (Nat × Option G),
-      (c.ord2 (if k < m.length then pickSorted 0 (c.ord1 m) (sortInts (randomPerm m.length k c.js)) else m)).take k = it ∧
-      it.length = k ∧ it.Subperm m := by
-    refine ⟨_, rfl, ?_⟩
-    by_cases hlt : k < m.length
-    · simp only [hlt, if_true]
-      have hl1 : (c.ord1 m).length = m.length := (h1 m).length_eq
-      obtain ⟨hsub, hlen⟩ := pick_random_k (c.ord1 m) k c.js (by omega) hjs (by simpa [hl1] using hjr)
-      rw [hl1] at hsub hlen
-      have hl2 := (h2 (pickSorted 0 (c.ord1 m) (sortInts (randomPerm m.length k c.js)))).length_eq
-      have htake : (c.ord2 (pickSorted 0 (c.ord1 m) (sortInts (randomPerm m.length k c.js)))).take k =
-          c.ord2 (pickSorted 0 (c.ord1 m) (sortInts (randomPerm m.length k c.js))) :=
-        List.take_of_length_le (by omega)
-      rw [htake]
-      exact ⟨by omega, ((h2 _).subperm).trans ((hsub.subperm).trans (h1 m).subperm)⟩
-    · simp only [hlt, if_false]
-      have hl2 := (h2 m).length_eq
-      have htake : (c.ord2 m).take k = c.ord2 m := List.take_of_length_le (by omega)
-      rw [htake]
-      exact ⟨by omega, (h2 m).subperm⟩
-  obtain ⟨it, hit, hlen, hsp⟩ := key
-  unfold recoverGroupSignature
-  simp only [hit, hlen, Nat.lt_irrefl, if_false]
-  have hnot : ¬ (k = 0 ∧ 0 < m.length) := by omega
-  simp only [hnot, if_false]
-  have hmem : ∀ e ∈ it, e ∈ m := fun e he => hsp.subset he
-  rw [mapM_honest (fun x => ops.mul h ((shareSeckey r cs x).getD 0)) it (fun e he => hhon e (hmem e he))]
-  simp only
-  have hids : IdsDistinct r (it.map Prod.fst) := by
-    unfold IdsDistinct at hd ⊢
-    obtain ⟨l, hl1, hl2⟩ := hsp
-    have hs : ((l.map Prod.fst).map (· % r)).Sublist ((m.map Prod.fst).map (· % r)) := (hl2.map _).map _
-    have hp : ((l.map Prod.fst).map (· % r)).Perm ((it.map Prod.fst).map (· % r)) := (hl1.map _).map _
-    exact (hp.nodup_iff).1 (hd.sublist hs)
-  have := recover_any_subset_partial ops hops cs hcs h (it.map Prod.fst) (by simpa [hlen] using hck) hids
-  unfold honestShares at this
-  rw [List.map_map] at this
-  exact this
+  have hdeg : (polyOf (castList r cs)).degree < k := by
+    refine lt_of_lt_of_le (degree_polyOf_lt _) ?_
+    simp only [castList, List.length_map]; exact_mod_cast hck
+  have h0 : (polyOf (castList r cs)).eval 0 = ((cs.headD 0 : Nat) : ZMod r) := by
+    rw [eval_zero_polyOf]; cases cs <;> simp [castList]
+  rw [hops.mul_eq, ← h0]
+  exact recoverGroupSignature_poly ops hops _ k hk0 hdeg (fun x => (shareSeckey r cs x).getD 0)
+    (fun x => by
+      obtain ⟨v, hv⟩ := shareSeckey_isSome r cs x hcs
+      simp only [hv, Option.getD_some]
+      exact shareSeckey_eval r cs x v hv) h m hkm hd hhon c hc
 
-/-- non-vacuity: 5 honest shares of `f = 5 + 3X + 2X²` over `r = 13`, threshold 3, map order
-    reversed, draws `[4,0,1]`. -/
+/-- non-vacuity: 5 honest shares of `f = 5 + 3X + 2X²` over `r = 13`, threshold 3, both map orders
+    reversed, draws `[4,0,1]` — an admissible choice — and the model computes `f(0) = 5`. -/
 example :
+    Admissible (⟨List.reverse, [4, 0, 1], List.reverse⟩ : Choice (Nat × Option (ZMod 13))) 5 3 ∧
     recoverGroupSignature (zops 13) 13 3
       ([1, 15, 3, 7, 9].map (fun x => (x, some ((zops 13).mul 1 ((shareSeckey 13 [5, 3, 2] x).getD 0)))))
-      ⟨List.reverse, [4, 0, 1], List.reverse⟩ = .ok (some 5) := by decide
+      ⟨List.reverse, [4, 0, 1], List.reverse⟩ = .ok (some 5) :=
+  ⟨⟨fun l => List.reverse_perm l, fun l => List.reverse_perm l, by decide, by decide⟩, by decide⟩
+
+/-- The panic branches are real and excluded by the hypotheses above only: fewer than `k`
+    entries, a nil point in a used slot, `k = 0` on a non-empty map. (The node guards the first by
+    `len(witnessSignMap) >= threshold` in `addWitnessForce`.) -/
+
+theorem recover_group_signature_panics (ops : Ops G) (c : Choice (Nat × Option G))
+    (h2 : ∀ l, (c.ord2 l).Perm l) (x : Nat) (g : G) :
+    recoverGroupSignature ops r 2 [(x, some g)] c = .panic ∧
+    recoverGroupSignature ops r 1 [(x, none)] c = .panic ∧
+    recoverGroupSignature ops r 0 [(x, some g)] c = .panic := by
+  refine ⟨?_, ?_, ?_⟩
+  · have h := List.perm_singleton.1 (h2 [(x, some g)])
+    simp [recoverGroupSignature, h]
+  · have h := List.perm_singleton.1 (h2 [(x, (none : Option G))])
+    simp [recoverGroupSignature, h]
+  · simp [recoverGroupSignature]
+
+/-! ## Verification -/
+
+section verify
+variable {G₂ GT : Type} [AddCommGroup G₂] [Module (ZMod r) G₂] [AddCommGroup GT] [Module (ZMod r) GT]
+
+/-- What is assumed of `bn256.Pair` (sampled by the harness, not proved): compatibility with
+    scalar multiplication on both sides. -/
+structure IsPairing (r : Nat) {G G₂ GT : Type} [AddCommGroup G] [Module (ZMod r) G]
+    [AddCommGroup G₂] [Module (ZMod r) G₂] [AddCommGroup GT] [Module (ZMod r) GT]
+    (e : G → G₂ → GT) : Prop where
+  smul_left : ∀ (a : ZMod r) p q, e (a • p) q = a • e p q
+  smul_right : ∀ (a : ZMod r) p q, e p (a • q) = a • e p q
+
+/-- **share_verifies**: a signature share `sk·H(m)` passes the pairing check of `VerifySig` under the
+    public share `sk·g₂` — for a member key, for the group key, for any scalar. -/
+theorem share_verifies (ops : Ops G) (hops : LawfulOps r ops) (ops₂ : Ops G₂) (hops₂ : LawfulOps r ops₂)
+    (e : G → G₂ → GT) (he : IsPairing r e) (eq : GT → GT → Bool) (heq : ∀ a, eq a a = true)
+    (g2 : G₂) (hm : G) (sk : Nat) :
+    verifyCore e eq g2 (ops₂.mul g2 sk) hm (ops.mul hm sk) = true := by
+  unfold verifyCore
+  rw [hops.mul_eq, hops₂.mul_eq, he.smul_left, he.smul_right]
+  exact heq _
+
+/-- **Headline (C13, `_partial`: member ids pairwise distinct mod `r`).** For a group whose keys
+    come from the node's DKG (`dealers` = the dealers' coefficient lists, each of the threshold
+    length `k`; member `x` holds `memberKey dealers x`), and a witness map `m` with at least `k`
+    honest signature shares on the message point `hm`:
+    * `RecoverGroupSignature` returns one and the same signature `gsk·hm` for **every** such map
+      (i.e. every subset of ≥ k members), every map iteration order and every outcome of the random
+      k-subset choice (`Admissible c`);
+    * it passes the pairing check of `VerifySig` under the aggregated group public key;
+    * every member's share passes it under that member's public share. -/
+theorem dkg_any_threshold_subset_same_valid_signature_partial [Fact r.Prime]
+    (ops : Ops G) (hops : LawfulOps r ops) (ops₂ : Ops G₂) (hops₂ : LawfulOps r ops₂)
+    (e : G → G₂ → GT) (he : IsPairing r e) (eq : GT → GT → Bool) (heq : ∀ a, eq a a = true)
+    (dealers : List (List Nat)) (k : Nat) (hk0 : 0 < k) (hne : dealers ≠ [])
+    (hk : ∀ cs ∈ dealers, cs ≠ [] ∧ cs.length ≤ k) (g2 : G₂) (hm : G) :
+    ∃ gsk pk, groupSecret r dealers = some gsk ∧
+      aggregatePoints ops₂.add (dealers.map (fun cs => ops₂.mul g2 (cs.headD 0))) = some pk ∧
+      verifyCore e eq g2 pk hm (ops.mul hm gsk) = true ∧
+      (∀ x sk, memberKey r dealers x = some sk →
+        verifyCore e eq g2 (ops₂.mul g2 sk) hm (ops.mul hm sk) = true) ∧
+      ∀ (m : List (Nat × Option G)), k ≤ m.length → IdsDistinct r (m.map Prod.fst) →
+        (∀ en ∈ m, en.2 = some (ops.mul hm ((memberKey r dealers en.1).getD 0))) →
+        ∀ (c : Choice (Nat × Option G)), Admissible c m.length k →
+          recoverGroupSignature ops r k m c = .ok (some (ops.mul hm gsk)) := by
+  obtain ⟨gsk, hg⟩ := aggregateSeckeys_isSome r (dealers.map (fun cs => cs.headD 0)) (by simpa using hne)
+  have hgs : groupSecret r dealers = some gsk := hg
+  have hge := groupSecret_eval dealers gsk hgs
+  refine ⟨gsk, (groupPoly r dealers).eval 0 • g2, hgs, group_pk ops₂ hops₂ dealers hne g2, ?_, ?_, ?_⟩
+  · have := share_verifies ops hops ops₂ hops₂ e he eq heq g2 hm gsk
+    rwa [hops₂.mul_eq, hge] at this
+  · intro x sk _
+    exact share_verifies ops hops ops₂ hops₂ e he eq heq g2 hm sk
+  · intro m hkm hd hhon c hc
+    rw [hops.mul_eq, hge]
+    exact recoverGroupSignature_poly ops hops (groupPoly r dealers) k hk0
+      (degree_groupPoly_lt dealers k (fun cs h => (hk cs h).2))
+      (fun x => (memberKey r dealers x).getD 0)
+      (fun x => by
+        obtain ⟨v, hv⟩ := memberKey_isSome (r := r) dealers x hne (fun cs h => (hk cs h).1)
+        simp only [hv, Option.getD_some]
+        exact memberKey_eval dealers x v hv) hm m hkm hd hhon c hc
+
+/-- non-vacuity of the headline: `r = 13`, all three groups `ZMod 13`, pairing = multiplication,
+    two dealers with `k = 2`, three members (ids 1, 15, 3), message point 2: the hypotheses hold and
+    two different subsets in different orders give the same signature `gsk·hm = 4·2 = 8`. -/
+example :
+    IsPairing 13 (fun (p q : ZMod 13) => p * q) ∧
+    (∀ cs ∈ [[1, 2], [3, 4]], cs ≠ [] ∧ cs.length ≤ 2) ∧
+    groupSecret 13 [[1, 2], [3, 4]] = some 4 ∧
+    IdsDistinct 13 [1, 15, 3] ∧
+    recoverGroupSignature (zops 13) 13 2
+      ([1, 15].map (fun x => (x, some ((zops 13).mul 2 ((memberKey 13 [[1, 2], [3, 4]] x).getD 0)))))
+      ⟨id, [], id⟩ = .ok (some 8) ∧
+    recoverGroupSignature (zops 13) 13 2
+      ([3, 15, 1].map (fun x => (x, some ((zops 13).mul 2 ((memberKey 13 [[1, 2], [3, 4]] x).getD 0)))))
+      ⟨List.reverse, [2, 0], id⟩ = .ok (some 8) :=
+  ⟨⟨fun a p q => by simp [mul_assoc], fun a p q => by simp [mul_left_comm]⟩, by decide, by decide, by decide,
+   by decide, by decide⟩
+
+end verify
 
 end Rangers.Props.C13
